@@ -63,6 +63,7 @@ func runC04(e *core.Env) error {
 		}
 		nIG := 2 + rr.Intn(2)
 		sharedTable := rr.Bool()
+		nApproval := 0
 		var igs []config.Integration
 		for i := 0; i < nIG; i++ {
 			table := fmt.Sprintf("t%d", i+1)
@@ -70,6 +71,12 @@ func runC04(e *core.Env) error {
 				table = "shared"
 			}
 			fields := core.Pick(rr, [][]string{{"block_time"}, {"block_time", "log_addr"}, {"block_time", "tx_input"}, {"block_time", "tx_status"}})
+			if !sharedTable && rr.Chance(2, 5) {
+				// a different event of the same transactions: another eth_getLogs filter on the same cached blocks
+				igs = append(igs, approvalIG(fmt.Sprintf("ig%d", i+1), table, fields, nil))
+				nApproval++
+				continue
+			}
 			igs = append(igs, transferIG(fmt.Sprintf("ig%d", i+1), table, fields, func(ci *config.Integration) {
 				if rr.Chance(1, 3) { // different address filter on the same event
 					for j := range ci.Block {
@@ -148,7 +155,28 @@ func runC04(e *core.Env) error {
 				}
 			}
 		}
+		// settle: no more faults, growth or reorgs; every task runs until it has nothing new. Then every
+		// pair's rows must be exactly what the pair produces from the source ALONE (a fresh uncached
+		// client and the real row builder): whatever the other tasks fetched, cached, inserted or
+		// unwound in between has neither removed nor altered nor added a row of this pair.
+		quiet := false
+		for round := 0; round < 80 && !w.dead && !quiet; round++ {
+			quiet = true
+			for _, t := range tasks {
+				if out := w.step(t, noFault); out != "nothing-new" && out != "done" {
+					quiet = false // progress, an unwind, or a transient error (a stale cached segment): go on
+				}
+			}
+		}
+		var alone []string
+		if !w.dead && quiet {
+			for _, t := range tasks {
+				alone = append(alone, w.projOracle(t, t.start-1))
+			}
+		}
 		op, impl := w.caseOp()
+		e.Add(core.Case{Oracles: alone, Impl: "ok", Key: fmt.Sprintf("c04-alone %d %d", h, e.Seed), Nontrivial: true,
+			Tags: []string{"rows-as-if-alone", fmt.Sprintf("approval-tasks=%d", nApproval), fmt.Sprintf("settled=%v", quiet)}, Detail: map[string]any{"history": strings.Split(op, "\n")}})
 		tags := []string{fmt.Sprintf("shared-table=%v", sharedTable), fmt.Sprintf("pairs=%d", len(tasks))}
 		for k, v := range w.tags {
 			for j := 0; j < v; j++ {
@@ -209,6 +237,34 @@ func runC05(e *core.Env) error {
 				}
 			}))
 		}
+		sameCol := rr.Chance(2, 3)
+		if sameCol { // D references the same integration (and, half of the time, the same column) as B
+			col := "ev_from"
+			if onInput {
+				col = "ev_to"
+			}
+			if rr.Bool() {
+				col = core.Pick(rr, []string{"ev_from", "ev_to"})
+			}
+			igs = append(igs, transferIG("igd", "td", []string{"block_time", "log_addr"}, func(ci *config.Integration) {
+				for j := range ci.Block {
+					if ci.Block[j].Name == "log_addr" {
+						ci.Block[j].Filter = dig.Filter{Op: "contains", Ref: dig.Ref{Integration: "iga", Column: col}}
+					}
+				}
+			}))
+		}
+		// declaration order is arbitrary: dependents may stand before or after what they reference
+		for i := len(igs) - 1; i > 0; i-- {
+			j := rr.Intn(i + 1)
+			igs[i], igs[j] = igs[j], igs[i]
+		}
+		// the dependencies the CONFIGURATION declares, computed here from the references as written
+		// (not read back from the implementation)
+		wantDeps := map[string][]string{}
+		for _, ci := range igs {
+			wantDeps[ci.Name] = refsOf(ci)
+		}
 		root := config.Root{Integrations: igs}
 		if err := w.setupRoot(&root); err != nil {
 			w.close()
@@ -243,12 +299,12 @@ func runC05(e *core.Env) error {
 			t := byName[name]
 			before := w.digest()
 			out := w.step(t, noFault)
-			if len(t.deps) == 0 {
+			if len(wantDeps[name]) == 0 {
 				continue
 			}
 			depSteps++
 			minDep, missing := ^uint64(0), false
-			for _, d := range t.deps {
+			for _, d := range wantDeps[name] {
 				dt := byName[d]
 				_, top, has, _ := w.taskRows(dt)
 				if !has {
@@ -268,7 +324,7 @@ func runC05(e *core.Env) error {
 				verdict = fmt.Sprintf("position %d ahead of referenced position %d", top, minDep)
 			}
 			e.Add(core.Case{Impl: verdict, Spec: "ok", Key: fmt.Sprintf("c05-gate %d %d", h, i), Nontrivial: true, Tags: []string{"dep-step", fmt.Sprintf("missing=%v", missing), "out:" + strings.SplitN(out, " ", 2)[0]},
-				Detail: map[string]any{"task": t.id, "deps": t.deps, "history": strings.Split(strings.Join(w.ops, "\n"), "\n")}})
+				Detail: map[string]any{"task": t.id, "declared_references": wantDeps[name], "loaded_dependencies": t.deps, "history": strings.Split(strings.Join(w.ops, "\n"), "\n")}})
 		}
 		if h == 0 {
 			// an integration with a filter reference stored through the dashboard is loaded without
@@ -299,10 +355,142 @@ func runC05(e *core.Env) error {
 			pg2.Close()
 		}
 		op, impl := w.caseOp()
-		e.Add(core.Case{Op: op, Impl: impl, Nontrivial: depSteps > 0, Tags: []string{fmt.Sprintf("two-refs=%v", two), fmt.Sprintf("on-input=%v", onInput), fmt.Sprintf("chain=%v", chainC)}, Key: fmt.Sprintf("c05 %d %d", h, e.Seed)})
+		e.Add(core.Case{Op: op, Impl: impl, Nontrivial: depSteps > 0, Tags: []string{fmt.Sprintf("two-refs=%v", two), fmt.Sprintf("on-input=%v", onInput), fmt.Sprintf("chain=%v", chainC), fmt.Sprintf("second-dependent=%v", sameCol)}, Key: fmt.Sprintf("c05 %d %d", h, e.Seed)})
 		w.close()
 	}
+	cfgDepsCases(e)
 	return nil
+}
+
+// refsOf lists (sorted, without duplicates) the integrations an integration's filters reference.
+func refsOf(ci config.Integration) []string {
+	set := map[string]bool{}
+	for _, in := range ci.Event.Inputs {
+		if in.Filter.Ref.Integration != "" {
+			set[in.Filter.Ref.Integration] = true
+		}
+	}
+	for _, b := range ci.Block {
+		if b.Filter.Ref.Integration != "" {
+			set[b.Filter.Ref.Integration] = true
+		}
+	}
+	var out []string
+	for n := range set {
+		out = append(out, n)
+	}
+	return sortedCopy(out)
+}
+
+// cfgDepsCases: random configurations (2-6 integrations, any number of them referencing the same
+// integration / column, dangling and malformed references mixed in) through the real
+// config.ValidateFilterRefs; K: the Dependencies equal the Lean model's (Deps.validate), O: an
+// accepted configuration makes every integration wait for exactly the integrations it references.
+func cfgDepsCases(e *core.Env) {
+	r := e.Rand
+	n := e.N(250, 4000)
+	enc := func(x string) string {
+		if x == "" {
+			return "~"
+		}
+		return x
+	}
+	for c := 0; c < n; c++ {
+		rr := r.Fork()
+		k := 2 + rr.Intn(5)
+		names := []string{"pools", "swaps", "mints", "burns", "syncs", "fees"}[:k]
+		hostile := rr.Chance(1, 4)
+		var igs []config.Integration
+		for i, nm := range names {
+			tbl := "t_" + nm
+			if rr.Chance(1, 6) && i > 0 {
+				tbl = "t_" + names[rr.Intn(i)] // shared table
+			}
+			ig := transferIG(nm, tbl, []string{"block_time", "log_addr"}, nil)
+			mkRef := func() dig.Ref {
+				ref := dig.Ref{Integration: core.Pick(rr, names), Column: core.Pick(rr, []string{"ev_from", "ev_to", "log_addr", "ev_from"})}
+				if hostile && rr.Chance(1, 4) {
+					switch rr.Intn(5) {
+					case 0:
+						ref.Integration = "nosuch"
+					case 1:
+						ref.Column = "nosuchcol"
+					case 2:
+						ref.Column = ""
+					case 3:
+						ref.Integration, ref.Table = "", "t_pools"
+					case 4:
+						ref.Integration = ""
+					}
+				}
+				return ref
+			}
+			ig.Event.Inputs = append([]dig.Input{}, ig.Event.Inputs...)
+			for j := range ig.Event.Inputs {
+				if rr.Chance(1, 3) {
+					ig.Event.Inputs[j].Filter = dig.Filter{Op: "contains", Ref: mkRef()}
+				}
+			}
+			for j := range ig.Block {
+				if rr.Chance(1, 2) {
+					ig.Block[j].Filter = dig.Filter{Op: "contains", Ref: mkRef()}
+				}
+			}
+			igs = append(igs, ig)
+		}
+		var parts []string
+		want := map[string][]string{}
+		for _, ig := range igs {
+			var cols, ir, br []string
+			for _, col := range ig.Table.Columns {
+				cols = append(cols, col.Name)
+			}
+			fr := func(ref dig.Ref) string { return enc(ref.Integration) + ":" + enc(ref.Column) + ":" + enc(ref.Table) }
+			for _, in := range ig.Event.Inputs {
+				ir = append(ir, fr(in.Filter.Ref))
+			}
+			for _, b := range ig.Block {
+				br = append(br, fr(b.Filter.Ref))
+			}
+			parts = append(parts, strings.Join([]string{ig.Name, ig.Table.Name, strings.Join(cols, ","), strings.Join(ir, "+"), strings.Join(br, "+")}, "/"))
+			want[ig.Name] = refsOf(ig)
+		}
+		root := config.Root{Integrations: igs}
+		impl := core.Protect(func() string {
+			if err := config.ValidateFilterRefs(&root); err != nil {
+				return "reject"
+			}
+			var out []string
+			for _, ig := range root.Integrations {
+				out = append(out, ig.Name+"="+strings.Join(ig.Dependencies, ","))
+			}
+			return "ok " + strings.Join(out, ";")
+		})
+		nrefs := 0
+		for _, v := range want {
+			nrefs += len(v)
+		}
+		e.Add(core.Case{Op: "cfgdeps " + strings.Join(parts, ";"), Impl: impl, Nontrivial: nrefs > 0,
+			Tags: []string{"cfgdeps", "impl:" + strings.SplitN(impl, " ", 2)[0], fmt.Sprintf("hostile=%v", hostile)}})
+		if strings.HasPrefix(impl, "ok") {
+			// oracle: the set of dependencies of every integration = the set of integrations it references
+			var got, exp []string
+			for _, ig := range root.Integrations {
+				set := map[string]bool{}
+				for _, d := range ig.Dependencies {
+					set[d] = true
+				}
+				var ds []string
+				for d := range set {
+					ds = append(ds, d)
+				}
+				got = append(got, ig.Name+"="+strings.Join(sortedCopy(ds), ","))
+				exp = append(exp, ig.Name+"="+strings.Join(want[ig.Name], ","))
+			}
+			e.Add(core.Case{Impl: strings.Join(got, ";"), Spec: strings.Join(exp, ";"), Key: "cfgdeps-o " + strings.Join(parts, ";"), Nontrivial: nrefs > 0,
+				Tags: []string{"cfgdeps-oracle", fmt.Sprintf("refs=%d", min(nrefs, 6))}, Detail: map[string]any{"config": parts}})
+		}
+	}
 }
 
 func runC06(e *core.Env) error {
